@@ -16,7 +16,7 @@ tvars == <<vars, tid, k>>
 
 ToSet(s) == {s[i] : i \in DOMAIN s}
 \* JSON has no sets
-CaseOf(e) == [fields |-> e.case.fields,
+CaseOf(e) == [depreq |-> e.case.depreq, fields |-> e.case.fields,
               vals   |-> [i \in DOMAIN e.case.vals |->
                            [e.case.vals[i] EXCEPT !.deps = ToSet(@), !.disc = ToSet(@)]]]
 LoggedErrs(e) == {<<e.errs[i][1], e.errs[i][2]>> : i \in DOMAIN e.errs}
